@@ -491,7 +491,7 @@ Lemma relative_certificate : forall tol I,
      <= tol * (rabs (nth c (i_drows I) []) (basis I m) + Qabs (div_target I c m)))
   /\ (forall q, (q < i_nd I * i_nf I)%nat ->
      Qabs (rdot (nth q (i_grows I) []) ones - grad_target I q)
-     <= tol * (rabs (nth q (i_grows I) []) ones + Qabs (grad_target I q))).
+     <= tol * (rabs (nth q (i_grows I) []) ones + Qabs (grad_target I q) + face_mag I q)).
 Proof.
   intros tol I H. unfold check in H. apply andb_prop in H. destruct H as [_ H].
   unfold rel_ok in H. apply andb_prop in H. destruct H as [Hd Hg]. split.
